@@ -940,6 +940,15 @@ func propC11(run *Run, n int) {
 		if a.K == KVoid || b.K == KVoid {
 			continue
 		}
+		if len(o.KeysOf()) == 0 && r.Chance(1, 5) {
+			// RFC 7386 takes an array value verbatim: nulls INSIDE arrays are within the property
+			if nullsIntoArrays(r, b, false) > 0 {
+				run.Count("merge:nulls-inside-arrays")
+			}
+			if r.Chance(1, 2) {
+				nullsIntoArrays(r, a, false)
+			}
+		}
 		addC11Case(run, o, a, b)
 	}
 }
